@@ -1,5 +1,6 @@
 """C03: results do not depend on what was analysed before."""
 import os
+import shutil
 
 import vlib
 from props import corpus, scanlib
@@ -25,6 +26,16 @@ func pkgDependent(m dsl.Matcher) {
 	m.Match(`gi`).Where(m.File().Name.Matches(`^common`)).Report(`gi used in a common file`)
 }
 ''')
+    # hand-written multi-file / multi-package shapes in which files look at shared (cyclic, mutually embedding)
+    # types in different orders; they get workers of their own, so every history is a permutation of these files
+    shutil.copytree(os.path.join(vlib.VERIF, "corpus", "history_shapes"), os.path.join(ws, "hshapes"))
+    hs = []
+    for root, dirs, files in os.walk(os.path.join(ws, "hshapes")):
+        if any(f.endswith(".go") for f in files):
+            hs.append("./" + os.path.relpath(root, ws))
+    hs.sort()
+    jobs.append((ws, hs, "HS"))
+    jobs.append((ws, hs[::-1], "HSr"))
     nh = 10 if tier == "quick" else 150
     mf = 36 if tier == "quick" else 120
     scanlib.run_sharded(res, vw, "c03", jobs, {"C03"}, extra=["-histories", str(nh), "-maxfiles", str(mf), "-rgrules", rules], mix=False, cwd=ws,
